@@ -2225,3 +2225,12 @@ Corollary earlier_fault_wins {A B C} (b : res xerr B) (c : res xerr C) e :
   handle (extract3 (@Err xerr A e) b c) = Responded (xerr_status e) /\
   (forall (x : A) eb, handle (extract3 (Ok x) (@Err xerr B eb) c) = Responded (xerr_status eb)).
 Proof. split; [reflexivity|]. intros x eb. reflexivity. Qed.
+
+(* the assert! of http_extract_path_params looks at the START of the message;
+   the start of every message the deserialiser produces is fixed text that
+   differs from "missing field: " before any client-supplied text (the raw
+   segment echoed by "unable to parse '..' as T", "unknown variant `..`") is
+   reached: whatever follows the head, the assertion holds *)
+Theorem assert_never_fires_any_tail e (client_text : str) :
+  starts_with MISSING_FIELD_COLON (merr_message_head e ++ client_text) = false.
+Proof. destruct e; reflexivity. Qed.
